@@ -11,7 +11,8 @@ if ! cargo +nightly fuzz build -O --fuzz-dir /verif/harness/fuzz --target-dir /v
   echo "run-fuzz: building $T failed"; tail -5 /verif/harness/locks/fuzz-build-$T.log; exit 2
 fi
 W=$(mktemp -d /dev/shm/vpfuzz.XXXXXX)
-mkdir -p "$W/corpus" "$W/art"
+mkdir -p "$W/corpus" "$W/art" "$W/tmp"
+export VP_FZ_DIR="$W/tmp"
 cp corpus-seed/$T/* "$W/corpus/" 2>/dev/null
 /verif/harness/target-fuzz/x86_64-unknown-linux-gnu/release/$T "$W/corpus" -runs=$RUNS -seed=$SEED -max_len=4096 -len_control=0 -timeout=10 -artifact_prefix="$W/art/" >"$W/log" 2>&1
 rc=$?
